@@ -270,6 +270,22 @@ def c18(ctx):
             lds = set(e['loc'] for e in trace_events(s.trace) if e['k'] == 'ld') - INIT_ONLY
             ctx.check('hold-table', lds <= {('S', 'hold_state_flag')}, ctx.site('cat_is_hold', m.fn_line('cat_is_hold')),
                       'cat_is_hold depends on %s' % sorted(lds))
+    # ... and the flag it reports is set exactly while the command machine is parked: in every state
+    # a step can start from (after a release request as well) the control state is HOLD only with the flag set
+    from .rules_fsm import transitions, cval, short
+    ex, ts = transitions(ctx, 'cmd')
+    n = 0
+    for t in ts:
+        if not t.frm.endswith('STATE_HOLD'):
+            continue
+        n += 1
+        flag = t.pre.mem.get(('S', 'hold_state_flag'))
+        ok = is_lin(flag) and t.pre.facts.lower(flag) >= 1
+        ctx.check('hold-while-parked', ok, t.site(),
+                  'the command is still suspended (state HOLD, no result code yet%s) but hold_state_flag may be %s: cat_is_hold reports no hold'
+                  % (', after %s' % t.t.get('env') if t.t.get('env', 'none') != 'none' else '', flag))
+    if n == 0:
+        raise AnalysisBroken('no transition leaves the HOLD state: the hold rules would be vacuous')
     return ctx
 
 
